@@ -2,6 +2,7 @@
 package c10
 
 import (
+	"time"
 	"bytes"
 	"context"
 	"fmt"
@@ -55,7 +56,11 @@ func nativeType[T any]() any {
 // Artefact is a compiled program or template together with a way to run it on an input.
 type Artefact struct {
 	Name  string
-	Build func() (run func(in int) string, err error)
+	// Build compiles the artefact. run executes it once with input in (input 2
+	// runs with a cancellable context that is cancelled only after the run,
+	// input 3 with a far deadline); inspect calls the read-only methods of the
+	// artefact (Disassemble with a small text limit, UsedVars).
+	Build func() (run func(in int) string, inspect func() string, err error)
 }
 
 func runProgram(p *scriggo.Program, in int) string {
@@ -68,8 +73,10 @@ func runProgram(p *scriggo.Program, in int) string {
 				status = fmt.Sprintf("host panic: %v", r)
 			}
 		}()
+		ctx, cancel := runContext(in)
+		defer cancel()
 		err := p.Run(&scriggo.RunOptions{
-			Context: context.WithValue(context.Background(), ctxKey{}, in),
+			Context: ctx,
 			Print: func(v any) {
 				mu.Lock()
 				fmt.Fprint(&out, v)
@@ -83,13 +90,36 @@ func runProgram(p *scriggo.Program, in int) string {
 	return out.String() + "|" + status
 }
 
+// runContext returns the context of a run with input in: the input value is
+// always attached; input 2 adds cancellation (never triggered during the run),
+// input 3 a deadline one hour away.
+func runContext(in int) (context.Context, context.CancelFunc) {
+	ctx := context.WithValue(context.Background(), ctxKey{}, in)
+	switch in {
+	case 2:
+		return context.WithCancel(ctx)
+	case 3:
+		return context.WithTimeout(ctx, time.Hour)
+	}
+	return ctx, func() {}
+}
+
 func program(name, src string) Artefact {
-	return Artefact{Name: name, Build: func() (func(int) string, error) {
+	return Artefact{Name: name, Build: func() (func(int) string, func() string, error) {
 		p, err := scriggo.Build(scriggo.Files{"main.go": []byte(src)}, &scriggo.BuildOptions{AllowGoStmt: true, Packages: hostPkg})
 		if err != nil {
-			return nil, err
+			return nil, nil, err
 		}
-		return func(in int) string { return runProgram(p, in) }, nil
+		inspect := func() (s string) {
+			defer func() {
+				if r := recover(); r != nil {
+					s = fmt.Sprintf("host panic: %v", r)
+				}
+			}()
+			asm, err := p.Disassemble("main")
+			return fmt.Sprintf("%s|err=%v", asm, err)
+		}
+		return func(in int) string { return runProgram(p, in) }, inspect, nil
 	}}
 }
 
@@ -114,7 +144,7 @@ func mdConverter(src []byte, out io.Writer) error {
 }
 
 func template(name string, files map[string]string) Artefact {
-	return Artefact{Name: name, Build: func() (func(int) string, error) {
+	return Artefact{Name: name, Build: func() (func(int) string, func() string, error) {
 		fsys := scriggo.Files{}
 		for k, v := range files {
 			fsys[k] = []byte(v)
@@ -140,7 +170,15 @@ func template(name string, files map[string]string) Artefact {
 		}
 		t, err := scriggo.BuildTemplate(fsys, "index.html", opts)
 		if err != nil {
-			return nil, err
+			return nil, nil, err
+		}
+		inspect := func() (s string) {
+			defer func() {
+				if r := recover(); r != nil {
+					s = fmt.Sprintf("host panic: %v", r)
+				}
+			}()
+			return fmt.Sprintf("%s|%s|%v", t.Disassemble(3), t.Disassemble(-1), t.UsedVars())
 		}
 		return func(in int) string {
 			w := &syncWriter{}
@@ -155,8 +193,10 @@ func template(name string, files map[string]string) Artefact {
 				}()
 				n := in
 				vars := map[string]any{"v": inputsText[in%len(inputsText)], "n": &n}
+				ctx, cancel := runContext(in)
+				defer cancel()
 				err := t.Run(w, vars, &scriggo.RunOptions{
-					Context: context.WithValue(context.Background(), ctxKey{}, in),
+					Context: ctx,
 					Print: func(v any) {
 						pmu.Lock()
 						fmt.Fprint(&printed, v)
@@ -168,7 +208,7 @@ func template(name string, files map[string]string) Artefact {
 			w.mu.Lock()
 			defer w.mu.Unlock()
 			return w.b.String() + "|" + printed.String() + "|" + status
-		}, nil
+		}, inspect, nil
 	}}
 }
 
